@@ -211,10 +211,10 @@ func bubble(tb *testing.T, f func()) (event string) {
 		if v := recover(); v != nil {
 			s := fmt.Sprint(v)
 			switch {
-			case strings.Contains(s, "deadlock"):
-				event = "deadlock: " + s
 			case strings.Contains(s, "blocked goroutines") || strings.Contains(s, "main bubble goroutine has exited"):
 				event = "leak: " + s
+			case strings.Contains(s, "deadlock"):
+				event = "deadlock: " + s
 			default:
 				event = "panic: " + s
 			}
